@@ -174,6 +174,16 @@ let string_of_state l =
     (list_str string_of_order (to_vec l.lq))
 
 let string_of_uout = function UOk o -> "ok:" ^ string_of_oorder o | UErr -> "err"
+let uout_of_string s =
+  if s = "err" then UErr
+  else if String.length s > 3 && String.sub s 0 3 = "ok:" then UOk (oorder_of_string (String.sub s 3 (String.length s - 3)))
+  else failwith ("bad update outcome " ^ s)
+(* transactions as the judges see them: txid/taker/maker/price/qty/side (the id is not judged) *)
+let judge_tx_of_string s =
+  match String.split_on_char '/' s with
+  | [_; tk; mk; pr; q; sd] -> { tx_idx = N0; tx_taker = oid_of_string tk; tx_maker = oid_of_string mk;
+                                tx_price = n_of_string pr; tx_qty = n_of_string q; tx_side = side_of_string sd }
+  | _ -> failwith ("bad tx " ^ s)
 
 (* listing oracle: the peer's listing must be a timestamp-sorted permutation of ours *)
 let rec sorted_ts = function
@@ -568,13 +578,36 @@ let handle line =
   | ["JUDGE"; "listing"; listing] ->
     if listing_ok_b (parse_list order_of_string listing) then "= 1" else "= 0"
   | ["JUDGE"; "acct"; p; qty; taker; before; txs; rem; complete] ->
-    let tx_of s = (match String.split_on_char '/' s with
-        | [_; tk; mk; pr; q; sd] -> { tx_idx = N0; tx_taker = oid_of_string tk; tx_maker = oid_of_string mk;
-                                      tx_price = n_of_string pr; tx_qty = n_of_string q; tx_side = side_of_string sd }
-        | _ -> failwith ("bad tx " ^ s)) in
-    let r = { r_taker = oid_of_string taker; r_txs = parse_list tx_of txs; r_remaining = n_of_string rem;
+    let r = { r_taker = oid_of_string taker; r_txs = parse_list judge_tx_of_string txs; r_remaining = n_of_string rem;
               r_complete = (complete = "1"); r_filled = [] } in
     if accounting_b (n_of_string p) (n_of_string qty) (oid_of_string taker) (parse_list order_of_string before) r
+    then "= 1" else "= 0"
+  (* C06: JUDGE exhaust <requested> <listing before> <listing after> <executed> <remaining> *)
+  | ["JUDGE"; "exhaust"; qty; before; after; exec; rem] ->
+    if exhaust_b (n_of_string qty) (parse_list order_of_string before) (parse_list order_of_string after)
+        (n_of_string exec) (n_of_string rem) then "= 1" else "= 0"
+  (* C07: JUDGE upd <level price> <listing before> <cv/ch/cc before> <update> <outcome> <listing after> <cv/ch/cc after> *)
+  | ["JUDGE"; "upd"; p; before; cb; u; out; after; ca] ->
+    let three s = (match String.split_on_char '/' s with
+        | [a; b; c] -> (n_of_string a, n_of_string b, n_of_string c)
+        | _ -> failwith ("bad counters " ^ s)) in
+    let (cv, ch, cc) = three cb and (cv', ch', cc') = three ca in
+    let p = n_of_string p and before = parse_list order_of_string before and u = update_of_string u in
+    if update_ok_b p before u (uout_of_string out) (parse_list order_of_string after)
+       && update_counts_b p before u cv ch cc cv' ch' cc' then "= 1" else "= 0"
+  (* C15: JUDGE stats <level price> <added> <removed> <quantity> <value> <event> ...   with events
+     A|<order>   M|<qty>|<taker>|<txs>|<remaining>|<complete>   U|<update>|<outcome> *)
+  | "JUDGE" :: "stats" :: p :: added :: removed :: qty :: value :: evs ->
+    let ev_of s = (match String.split_on_char '|' s with
+        | ["A"; o] -> let o = order_of_string o in (OAdd o, OutAdd o)
+        | ["M"; q; taker; txs; rem; complete] ->
+          (OMatch (n_of_string q, oid_of_string taker),
+           OutMatch { r_taker = oid_of_string taker; r_txs = parse_list judge_tx_of_string txs;
+                      r_remaining = n_of_string rem; r_complete = (complete = "1"); r_filled = [] })
+        | ["U"; u; out] -> (OUpdate (update_of_string u), OutUpdate (uout_of_string out))
+        | _ -> failwith ("bad event " ^ s)) in
+    if stats_b (n_of_string p) (List.map ev_of (List.filter (fun s -> s <> "") evs))
+        (n_of_string added) (n_of_string removed) (n_of_string qty) (n_of_string value)
     then "= 1" else "= 0"
   | ["PING"] -> "= pong"
   | _ -> "= error unknown command: " ^ line
